@@ -68,7 +68,7 @@ def kind_of(spec):
         if issubclass(spec, ls.SchemaBase):
             return ("BLOCK", spec)
         exact = {ls.SchemaStr: "KStr", ls.SchemaMultilineStr: "KMStr", ls.SchemaInt: "KInt", ls.SchemaDate: "KDate",
-                 ls.SchemaHexInt: "KHex", inv.SchemaFlagField: "KHex", ls.SchemaUUID: "KUUID", ls.SchemaLLSD: "KLLSD"}
+                 ls.SchemaHexInt: "KHex", inv.SchemaFlagField: "KFlag", ls.SchemaUUID: "KUUID", ls.SchemaLLSD: "KLLSD"}
         if spec in exact:
             # SchemaFlagField must not override the text functions of SchemaHexInt
             if spec is inv.SchemaFlagField and ("serialize" in spec.__dict__ or "deserialize" in spec.__dict__):
@@ -122,7 +122,7 @@ def ckind(kd):
 def cpval(kd, v):
     if kd[0] in ("KInt", "KDate", "KEnum"):
         return "(VZ (%d)%%Z)" % int(v)
-    if kd[0] == "KHex":
+    if kd[0] in ("KHex", "KFlag"):
         return "(VN %d)" % int(v)
     if kd[0] in ("KStr", "KMStr"):
         return "(VS %s)" % cstr(v)
@@ -216,7 +216,7 @@ def enc_prim(kd, v):
         return "Z%d" % calendar.timegm(v.utctimetuple())
     if k == "KEnum":
         return "Z%d" % int(v)
-    if k == "KHex":
+    if k in ("KHex", "KFlag"):
         return "H%x" % int(v)
     if k == "KUUID":
         return "H%x" % v.int
@@ -265,3 +265,124 @@ def impl_from_lines(cls, lines, fields):
         return "%s # %d" % (enc_record(obj, fields), rest), None
     except Exception as e:
         return "UNENCODABLE:" + type(e).__name__, None
+
+
+# ---------------------------------------------------------------------------- (3) LLSD flavours
+
+FLAVOURS = ("legacy", "ais")
+
+
+def live_llsd_schema(cls, flavour, nested=False):
+    """fields of cls._get_fields_dict(llsd_flavor=flavour) in dict order, named by their LLSD key"""
+    out = []
+    fd = cls._get_fields_dict(llsd_flavor=flavour)
+    names = [f.name for f in fd.values() if f.metadata.get("spec")]
+    if len(set(names)) != len(names):
+        raise RuntimeError("LLSD key table of %s/%s maps two keys to one field" % (cls.__name__, flavour))
+    for key, f in fd.items():
+        if not f.metadata.get("spec"):
+            continue
+        if f.default_factory is not dataclasses.MISSING:
+            raise RuntimeError("default_factory on %s.%s" % (cls.__name__, f.name))
+        kd = kind_of(f.metadata["spec"])
+        if kd[0] == "BLOCK":
+            if nested:
+                raise RuntimeError("nested block deeper than one level")
+            kd = ("BLOCK", kd[1].SCHEMA_NAME, live_llsd_schema(kd[1], flavour, nested=True), kd[1])
+        out.append({"name": f.name, "key": key, "kind": kd, "default": f.default, "inone": False, "llsdonly": False})
+    return out
+
+
+def _as_keyed(fields):
+    out = []
+    for f in fields:
+        g = dict(f)
+        g["name"] = f["key"]
+        if f["kind"][0] == "BLOCK":
+            g["kind"] = ("BLOCK", f["key"], _as_keyed(f["kind"][2]), f["kind"][3])
+        out.append(g)
+    return out
+
+
+def emit_llsd(path):
+    classes = _classes()
+    src = ["(* generated by harness/translate/c20_records.py: LLSD key tables per class and flavour - do not edit *)",
+           "From Coq Require Import NArith ZArith List Bool.",
+           "From HV Require Import Asset.Schema Asset.Digits Asset.Record Asset.RecordProofs Asset.Llsd Asset.LlsdProofs.",
+           "From HVgen Require Import C20_records.",
+           "Import ListNotations.", "Local Open Scope N_scope.", ""]
+    rows = []
+    for cls in classes:
+        for fl in FLAVOURS:
+            nm = "llsd_%s_%s" % (cls.__name__, fl)
+            fields = live_llsd_schema(cls, fl)
+            src.append("(* %s / %s: %s *)" % (cls.__name__, fl, " ".join("%s<-%s" % (f["key"], f["name"]) for f in fields)))
+            src.append("Definition %s : schema := %s." % (nm, cschema(_as_keyed(fields))))
+            src.append("Lemma %s_wf : wf_keys %s = true.\nProof. vm_compute. reflexivity. Qed." % (nm, nm))
+            cfl = "Legacy" if fl == "legacy" else "Ais"
+            src.append("""Theorem %s_roundtrip : forall r extra, dom_llsd %s %s r = true ->
+  Forall (fun kv => find_field %s (fst kv) = None) extra ->
+  from_llsd %s %s (to_llsd %s %s r ++ extra) = Some r.
+Proof. intros r extra H He. exact (llsd_roundtrip %s %s r extra %s_wf H He). Qed.
+""" % (nm, cfl, nm, nm, cfl, nm, cfl, nm, cfl, nm, nm))
+            rows.append(nm)
+    src.append("Definition live_llsd_schemas : list schema := [\n  %s ]." % ";\n  ".join(rows))
+    with open(path, "w") as f:
+        f.write("\n".join(src) + "\n")
+    return len(rows)
+
+
+def enc_lprim(kd, v, flavour):
+    """a live to_llsd value -> driver syntax (by the Python type actually produced)"""
+    from hippolyzer.lib.base.datatypes import UUID
+    import uuid as _uuid
+    if kd[0] == "KLLSD":
+        from hippolyzer.lib.base.legacy_schema import SchemaLLSD
+        return "x" + _cps(SchemaLLSD.serialize(v)[:-2])
+    if isinstance(v, bool):
+        return "?bool"
+    if isinstance(v, (bytes, bytearray)):
+        return "b" + bytes(v).hex()
+    if isinstance(v, _uuid.UUID):
+        return "u%x" % v.int
+    if isinstance(v, int):
+        return "i%d" % int(v)
+    if isinstance(v, str):
+        return "s" + _cps(v)
+    return "?" + type(v).__name__
+
+
+def enc_ldict(d, fields, flavour):
+    by_key = {f["key"]: f for f in fields}
+    out = []
+    for k, v in d.items():
+        f = by_key.get(k)
+        if f is None:
+            out.append("%s=?unknown" % _cps(k))
+        elif f["kind"][0] == "BLOCK":
+            sub = {g["key"]: g for g in f["kind"][2]}
+            out.append("%s=m[%s]" % (_cps(k), " ! ".join("%s=%s" % (_cps(k2), enc_lprim(sub[k2]["kind"], v2, flavour)) for k2, v2 in v.items())))
+        else:
+            out.append("%s=%s" % (_cps(k), enc_lprim(f["kind"], v, flavour)))
+    return " ; ".join(out)
+
+
+def impl_to_llsd(obj, flavour):
+    from hippolyzer.lib.base.legacy_schema import SchemaBase
+    return SchemaBase.to_llsd(obj, flavour)
+
+
+def impl_from_llsd(cls, d, flavour, fields):
+    import logging
+    logging.disable(logging.CRITICAL)
+    from hippolyzer.lib.base.legacy_schema import SchemaBase
+    try:
+        obj = SchemaBase.from_llsd.__func__(cls, d, flavour)
+    except Exception as e:
+        return "ERR"
+    if obj is None:
+        return "NONE"
+    try:
+        return enc_record(obj, fields)
+    except Exception as e:
+        return "UNENCODABLE:" + type(e).__name__
